@@ -330,7 +330,7 @@ func syncExploreOnce(t *testing.T, id int, rnd *rand.Rand) (evs []SyncEv, cfg st
 					hdr = chain.Forge(uint64(o.h), uint64(100+nextOffer))
 				case "wrongchain":
 					hdr = chain.At(uint64(o.h)).Clone()
-					hdr.Chain = "otherchain"
+					hdr.Chain = []string{"otherchain", ""}[nextOffer%2] // (a header that names no chain is of another chain as well)
 				case "fork":
 					hdr = chain.Fork(uint64(o.h), uint64(500+nextOffer)).At(uint64(o.h))
 				case "lowerLate":
